@@ -80,7 +80,8 @@ struct OwnTree : rb::container<T> {
       n->data.~T();
       ::operator delete(n);
    }
-   ~OwnTree() { destroy(this->root); }
+   // (When the library's own destructor releases the nodes, it finds an empty tree.)
+   ~OwnTree() { destroy(this->root); this->root = nullptr; this->count = 0; }
 };
 
 struct IntCmp {
